@@ -226,6 +226,18 @@ type Ctx struct {
 	Assume   []string
 }
 
+// Phase returns a function that, when called, records the time since Phase was called under the
+// given label in the evidence (coverage.extra.phase_s) - where the time of a check goes.
+func (c *Ctx) Phase(label string) func() {
+	t0 := time.Now()
+	return func() {
+		c.Cov.mu.Lock()
+		l, _ := c.Cov.Extra["phase_s"].([]string)
+		c.Cov.Extra["phase_s"] = append(l, fmt.Sprintf("%s: %.1f", label, time.Since(t0).Seconds()))
+		c.Cov.mu.Unlock()
+	}
+}
+
 func (c *Ctx) Thorough() bool { return c.Tier == "thorough" }
 func (c *Ctx) Expired() bool  { return time.Now().After(c.Deadline) }
 
